@@ -16,7 +16,8 @@ use vmon::srv::{Ctx, SrvCfg};
 
 const WD: Duration = Duration::from_secs(30);
 
-pub fn run_case(rep: &mut Report, seed: u64, shard: u64, case: u64) {
+/// returns true when the shard should stop (a verdict that costs 40 s per scenario exists)
+pub fn run_case(rep: &mut Report, seed: u64, shard: u64, case: u64) -> bool {
     let mut rng = Rng::derive(seed, "c17-drop", shard, case);
     let detached = rng.bool();
     let mode = if detached { dropshot::HandlerTaskMode::Detached } else { dropshot::HandlerTaskMode::CancelOnDisconnect };
@@ -28,7 +29,7 @@ pub fn run_case(rep: &mut Report, seed: u64, shard: u64, case: u64) {
         Ok(r) => r,
         Err(_) => {
             rep.inconclusive("c17-drop-server-start-failed");
-            return;
+            return false;
         }
     };
     let addr = running.addr;
@@ -86,7 +87,7 @@ pub fn run_case(rep: &mut Report, seed: u64, shard: u64, case: u64) {
             ctx.gates.open(*u);
         }
         drop(server);
-        return;
+        return false;
     }
     // ---- the shutdown request: the handle is dropped
     log.push("S_DROP", 0, 0, "");
@@ -139,7 +140,7 @@ pub fn run_case(rep: &mut Report, seed: u64, shard: u64, case: u64) {
     rep.eval(format!("drop|{m}|inflight{a}|idle{idle}|waiters{waiters}|late{}", late_connection as u8));
     if !quiescent {
         rep.inconclusive("c17-drop-handlers-still-running-at-watchdog");
-        return;
+        return false;
     }
     if released_finally < waiters {
         rep.violate(
@@ -148,7 +149,7 @@ pub fn run_case(rep: &mut Report, seed: u64, shard: u64, case: u64) {
                    "what": "the server handle was dropped, every started handler has ended, every client has disconnected, and 40 s later wait_for_shutdown() waiters are still pending",
                    "history": history_json(&events, 200)}),
         );
-        return;
+        return true;
     }
     if released_with_clients < waiters {
         // released only once the idle / finished clients had gone: same rule as for close()
@@ -185,6 +186,7 @@ pub fn run_case(rep: &mut Report, seed: u64, shard: u64, case: u64) {
     } else {
         rep.count("port_not_served_after_shutdown", 1);
     }
+    false
 }
 
 pub fn run_shard(seed: u64, shard: u64, nshards: u64, total: u64) -> Out {
@@ -201,7 +203,10 @@ pub fn run_shard(seed: u64, shard: u64, nshards: u64, total: u64) -> Out {
     let mut out = Out::new(rep);
     let mut case = shard;
     while case < total {
-        run_case(&mut out.rep, seed, shard, case);
+        if run_case(&mut out.rep, seed, shard, case) {
+            out.rep.count("scenarios_not_run_after_a_pending-waiters_verdict", (total - case) / nshards);
+            break;
+        }
         case += nshards;
     }
     out
